@@ -1,8 +1,6 @@
 package vh
 
 import (
-	"sync"
-	"time"
 	"bufio"
 	"bytes"
 	"errors"
@@ -12,11 +10,13 @@ import (
 	"path/filepath"
 	"sort"
 	"strings"
+	"sync"
 	"syscall"
+	"time"
 
 	kv "github.com/XiXi-2024/xixi-kv"
-	"github.com/XiXi-2024/xixi-kv/datatype"
 	"github.com/XiXi-2024/xixi-kv/datafile"
+	"github.com/XiXi-2024/xixi-kv/datatype"
 	"github.com/XiXi-2024/xixi-kv/fio"
 	"github.com/XiXi-2024/xixi-kv/index"
 	"github.com/XiXi-2024/xixi-kv/utils"
@@ -57,27 +57,29 @@ func EngErr(err error) string {
 
 // EngineRunner executes engine-layer script lines ("E ...") on the real engine.
 type EngineRunner struct {
-	Root    string            // scratch root of this scenario
-	dirs    map[string]string // logical directory name -> path
-	cur     string            // current logical directory
-	db      *kv.DB
-	opts    kv.Options
-	batch   *kv.Batch
-	events  []string
-	Verbose bool
-	scen    string
-	Oracle  []string
-	ref     *refModel
-	shadow  *shadowFS
-	iter    *kv.Iterator
-	iterRef *iterRef
+	Root       string            // scratch root of this scenario
+	dirs       map[string]string // logical directory name -> path
+	cur        string            // current logical directory
+	db         *kv.DB
+	opts       kv.Options
+	batch      *kv.Batch
+	events     []string
+	Verbose    bool
+	scen       string
+	Oracle     []string
+	ref        *refModel
+	shadow     *shadowFS
+	iter       *kv.Iterator
+	iterRef    *iterRef
 	probeClose bool
 	// hostile caller (C15): one key buffer and one value buffer are reused for every call and
 	// overwritten after each return; returned values are kept, poisoned and watched
-	hostile  bool
-	keyBuf   []byte
-	valBuf   []byte
-	returned []retSlice
+	hostile   bool
+	oldBatch  *kv.Batch // the previous, committed batch (its handle must stay dead)
+	probedKeys [][]byte // keys asked for by the read probes of the last probed call
+	keyBuf    []byte
+	valBuf    []byte
+	returned  []retSlice
 	mergeSeen []uint32
 	// first data file written entirely under the current DataFileSize (files that were
 	// active in an earlier session may have been filled under another limit)
@@ -697,7 +699,65 @@ func (r *EngineRunner) Exec(f []string) (res string) {
 			return "err " + EngErr(err) + r.takeEvents(false)
 		}
 		return "ok" + r.takeEvents(false)
+	case "padto":
+		// E padto <d> <key> <seed>: a Put whose value length is chosen so that the active file then ends exactly <d>
+		// bytes before the next block boundary (whatever is written next starts there).  The length is computed
+		// from the file's logical size and reported: an input of the model, like a batch id.
+		{
+			d := atoi(f[2])
+			k, _ := ParseTok(f[3])
+			size := int(r.db.VerifActiveSize())
+			vlen := -1
+			for v := 1; v < 2*bs; v++ {
+				st := &fileState{off: size % bs}
+				st.advance(encLen(len(k), v, 0))
+				if (bs-st.off%bs)%bs == d%bs && st.off%bs != 0 {
+					vlen = v
+					break
+				}
+			}
+			if vlen < 0 {
+				return "err nolength"
+			}
+			v := GenBytes(vlen, atou(f[4]))
+			err := r.db.Put(k, v)
+			r.ref.put(r, k, v, err)
+			if err != nil {
+				return "err " + EngErr(err) + r.takeEvents(false)
+			}
+			return fmt.Sprintf("ok %d", vlen) + r.takeEvents(false)
+		}
+	case "bold":
+		// E bold p|d|g|c <key> <val>: a call through the handle of the PREVIOUS (committed) batch while a newer batch
+		// may be open: it must be rejected as committed and change nothing (the handle of a committed batch
+		// never comes back to life, whatever the engine recycles internally)
+		if r.oldBatch == nil {
+			return "err committed"
+		}
+		k, _ := ParseTok(f[3])
+		var err error
+		switch f[2] {
+		case "p":
+			v, _ := ParseTok(f[4])
+			err = r.oldBatch.Put(k, v)
+		case "d":
+			err = r.oldBatch.Delete(k)
+		case "g":
+			_, err = r.oldBatch.Get(k)
+		default:
+			err = r.oldBatch.Commit()
+		}
+		if !errors.Is(err, kv.ErrBatchCommitted) {
+			r.fail("C05", "a call (%s) through the handle of an earlier, committed batch returned %v instead of the batch-committed error", f[2], err)
+		}
+		if err != nil {
+			return "err " + EngErr(err)
+		}
+		return "ok"
 	case "batch":
+		if r.batch != nil && r.ref.batchCommitted {
+			r.oldBatch = r.batch
+		}
 		r.batchSync = f[2] == "1"
 		r.so.opKind = "batch"
 		r.batch = r.db.NewBatch(kv.BatchOptions{Sync: f[2] == "1"})
@@ -767,6 +827,77 @@ func (r *EngineRunner) Exec(f []string) (res string) {
 			s = "err " + EngErr(err)
 		}
 		return s + " order " + strings.Join(ids, ",") + r.takeEvents(false)
+	case "mergeclose":
+		// E mergeclose <n>: the database is closed while a Merge is between two records of its scan (parked after
+		// <n> scan steps).  Whatever the interrupted merge reports and leaves behind, it must not become
+		// adoptable: the next Open - and the one after it - recover exactly the mapping.  Judged against the
+		// reference mapping; the database is left closed (last operation of a scenario).
+		{
+			saved1, saved2, saved3 := fio.VerifEvent, kv.VerifFsEvent, kv.VerifMergeFile
+			fio.VerifEvent, kv.VerifFsEvent, kv.VerifMergeFile = nil, nil, nil
+			defer func() { fio.VerifEvent, kv.VerifFsEvent, kv.VerifMergeFile = saved1, saved2, saved3 }()
+			at := atoi(f[2])
+			parked, release, done := make(chan struct{}), make(chan struct{}), make(chan error, 1)
+			var once sync.Once
+			mergeG := int64(-1)
+			steps := 0
+			kv.VerifSched = func(label string) {
+				if label == "merge.scan" && goid() == mergeG {
+					if steps == at {
+						once.Do(func() { close(parked); <-release })
+					}
+					steps++
+				}
+			}
+			db := r.db
+			go func() { mergeG = goid(); done <- db.Merge() }()
+			note := "closed-during-scan"
+			select {
+			case <-done:
+				note = "merge-finished-before-step"
+			case <-parked:
+				cerr := r.db.Close()
+				close(release)
+				select {
+				case <-done:
+				case <-time.After(20 * time.Second):
+					r.fail("C09", "Merge had not returned 20 s after the database was closed under it")
+				}
+				if cerr != nil {
+					note += " close-error"
+				}
+			case <-time.After(20 * time.Second):
+				r.fail("C09", "Merge did not reach its scan within 20 s")
+				close(release)
+			}
+			kv.VerifSched = nil
+			if note == "merge-finished-before-step" {
+				_ = r.db.Close()
+			}
+			r.db = nil
+			r.events = nil
+			for round := 1; round <= 2; round++ {
+				db2, err := kv.Open(r.opts)
+				if err != nil {
+					r.fail("C06", "Open %d after a Close that interrupted a Merge scan: %v", round, err)
+					break
+				}
+				if n := len(db2.ListKeys()); n != len(r.ref.m) {
+					r.fail("C06", "Open %d after a Close that interrupted a Merge scan (%s): %d keys, the mapping has %d (a partial merge output was adopted)", round, note, n, len(r.ref.m))
+				}
+				for k, want := range r.ref.m {
+					if k == "" {
+						continue
+					}
+					if v, err := db2.Get([]byte(k)); err != nil || !bytes.Equal(v, want) {
+						r.fail("C06", "Open %d after a Close that interrupted a Merge scan (%s): Get(%s) = %s, %v; the mapping holds %s", round, note, Obs([]byte(k)), Obs(v), err, Obs(want))
+						break
+					}
+				}
+				_ = db2.Close()
+			}
+			return "done # " + note
+		}
 	case "mergebatchcrash":
 		// E mergebatchcrash <nkeys> <vlen> <seed>: a Merge is parked at the first step of its scan; another client
 		// opens a batch that overwrites live keys and is large enough to flush pieces before Commit; the merge
@@ -935,85 +1066,7 @@ func (r *EngineRunner) Exec(f []string) (res string) {
 		// what the mapping holds.  For the model this is one Merge.
 		r.mergeSeen = nil
 		r.installMergeHook()
-		type probeRes struct {
-			k   []byte
-			v   []byte
-			err error
-			at  string
-		}
-		var probeKeys [][]byte
-		for _, k := range r.ref.sortedKeys() {
-			if k != "" {
-				probeKeys = append(probeKeys, []byte(k))
-			}
-		}
-		probeKeys = append(probeKeys, []byte("\x00absent-key"))
-		mergeG := goid()
-		var pending []chan probeRes
-		probes, answeredDuring := 0, 0
-		checkProbe := func(p probeRes) {
-			want, ok := r.ref.m[string(p.k)]
-			switch {
-			case !ok && p.err != kv.ErrKeyNotFound:
-				r.fail("C08", "Get(%s) issued while Merge was at %s: key absent before, during and after the merge, got value %s err %v", Obs(p.k), p.at, Obs(p.v), p.err)
-			case ok && p.err != nil:
-				r.fail("C08", "Get(%s) issued while Merge was at %s: the key holds %s before, during and after the merge, got error %v", Obs(p.k), p.at, Obs(want), p.err)
-			case ok && !bytes.Equal(p.v, want):
-				r.fail("C08", "Get(%s) issued while Merge was at %s: the key holds %s before, during and after the merge, got %s", Obs(p.k), p.at, Obs(want), Obs(p.v))
-			}
-		}
-		probe := func(at string) {
-			if goid() != mergeG || probes >= 240 {
-				return
-			}
-			k := probeKeys[probes%len(probeKeys)]
-			probes++
-			ch := make(chan probeRes, 1)
-			db := r.db
-			go func() {
-				v, err := db.Get(k)
-				ch <- probeRes{k, append([]byte(nil), v...), err, at}
-			}()
-			select {
-			case p := <-ch:
-				answeredDuring++
-				checkProbe(p)
-			case <-time.After(200 * time.Microsecond):
-				pending = append(pending, ch)
-			}
-		}
-		savedEv, savedFs := fio.VerifEvent, kv.VerifFsEvent
-		fio.VerifEvent = func(kind string, path string, data []byte, n int64) {
-			if goid() != mergeG {
-				return
-			}
-			if savedEv != nil {
-				savedEv(kind, path, data, n)
-			}
-			probe(kind + " " + filepath.Base(path))
-		}
-		kv.VerifFsEvent = func(kind string, a string, b string) {
-			if savedFs != nil {
-				savedFs(kind, a, b)
-			}
-			probe(kind + " " + filepath.Base(a))
-		}
-		kv.VerifSched = func(label string) {
-			if label == "merge.scan" {
-				probe(label)
-			}
-		}
-		err := r.db.Merge()
-		for _, ch := range pending {
-			select {
-			case p := <-ch:
-				checkProbe(p)
-			case <-time.After(20 * time.Second):
-				r.fail("C09", "a Get issued during Merge had not returned 20 s after Merge returned")
-			}
-		}
-		// (the hooks are package variables read by the probing goroutines: reset once those have finished)
-		fio.VerifEvent, kv.VerifFsEvent, kv.VerifSched = savedEv, savedFs, nil
+		err, probes, answeredDuring := r.withReadProbes("Merge", func() error { return r.db.Merge() })
 		var ids []string
 		for _, id := range r.mergeSeen {
 			ids = append(ids, fmt.Sprintf("%d", id))
@@ -1024,6 +1077,26 @@ func (r *EngineRunner) Exec(f []string) (res string) {
 			s = "err " + EngErr(err)
 		}
 		return s + " order " + strings.Join(ids, ",") + r.takeEvents(false) + fmt.Sprintf(" # probes=%d answered_during=%d", probes, answeredDuring)
+	case "backupget":
+		// a Backup during which another client reads (Gets issued at every file operation of the backup from a
+		// second goroutine); then the source goes on.  For the model this is one Backup.
+		{
+			dst := filepath.Join(r.Root, f[2])
+			r.dirs[f[2]] = dst
+			err, probes, answeredDuring := r.withReadProbes("Backup", func() error { return r.db.Backup(dst) })
+			r.ref.backup(r, f[2])
+			if err != nil {
+				return "err " + EngErr(err) + r.takeEvents(true)
+			}
+			// the probing Gets re-establish the mappings of the files they read (memory-mapped I/O): the keys
+			// they asked for are part of the observation, the model reads them after its Backup
+			var ks []string
+			for i := 0; i < probes && i < len(r.probedKeys); i++ {
+				ks = append(ks, HexTok(r.probedKeys[i]))
+			}
+			r.events = nil
+			return "ok keys=" + strings.Join(ks, ",") + fmt.Sprintf(" # probes=%d answered_during=%d", probes, answeredDuring)
+		}
 	case "mergebusy":
 		// a Merge that is probed while it runs: parked at its first scan step, two more Merge calls must both
 		// be refused (the running merge owns the merge directory until it returns); then it is released.
@@ -1228,7 +1301,7 @@ func (r *EngineRunner) Exec(f []string) (res string) {
 		return r.listing()
 	case "hintcheck":
 		return r.hintCheck()
-	case "open2", "openchild", "openbad", "openrace", "openbg":
+	case "open2", "openchild", "openbad", "openrace", "openbg", "lockprobe", "closebg":
 		return r.execLock(f)
 	case "concsched", "concpark", "concstress", "concmix", "concbg":
 		return r.execConc(f)
@@ -1348,3 +1421,92 @@ func RunEngineScript(lines []string, w *bufio.Writer, verbose bool) error {
 }
 
 var _ = bytes.Equal
+
+// withReadProbes runs one engine call (Merge, Backup) and, at every file operation, directory operation
+// and scan step the call makes, issues a Get from a second goroutine.  No mutation runs meanwhile, so
+// every Get - answered during the call or, having waited for the engine lock, after it - must answer
+// exactly what the reference mapping holds (C08: a key present before, during and after the call).
+func (r *EngineRunner) withReadProbes(what string, run func() error) (error, int, int) {
+	type probeRes struct {
+		k   []byte
+		v   []byte
+		err error
+		at  string
+	}
+	var probeKeys [][]byte
+	for _, k := range r.ref.sortedKeys() {
+		if k != "" {
+			probeKeys = append(probeKeys, []byte(k))
+		}
+	}
+	probeKeys = append(probeKeys, []byte("\x00absent-key"))
+	callG := goid()
+	r.probedKeys = nil
+	var pending []chan probeRes
+	probes, answeredDuring := 0, 0
+	checkProbe := func(p probeRes) {
+		want, ok := r.ref.m[string(p.k)]
+		switch {
+		case !ok && p.err != kv.ErrKeyNotFound:
+			r.fail("C08", "Get(%s) issued while %s was at %s: key absent before, during and after the call, got value %s err %v", Obs(p.k), what, p.at, Obs(p.v), p.err)
+		case ok && p.err != nil:
+			r.fail("C08", "Get(%s) issued while %s was at %s: the key holds %s before, during and after the call, got error %v", Obs(p.k), what, p.at, Obs(want), p.err)
+		case ok && !bytes.Equal(p.v, want):
+			r.fail("C08", "Get(%s) issued while %s was at %s: the key holds %s before, during and after the call, got %s", Obs(p.k), what, p.at, Obs(want), Obs(p.v))
+		}
+	}
+	probe := func(at string) {
+		if goid() != callG || probes >= 240 {
+			return
+		}
+		k := probeKeys[probes%len(probeKeys)]
+		r.probedKeys = append(r.probedKeys, k)
+		probes++
+		ch := make(chan probeRes, 1)
+		db := r.db
+		go func() {
+			v, err := db.Get(k)
+			ch <- probeRes{k, append([]byte(nil), v...), err, at}
+		}()
+		select {
+		case p := <-ch:
+			answeredDuring++
+			checkProbe(p)
+		case <-time.After(200 * time.Microsecond):
+			pending = append(pending, ch)
+		}
+	}
+	savedEv, savedFs := fio.VerifEvent, kv.VerifFsEvent
+	fio.VerifEvent = func(kind string, path string, data []byte, n int64) {
+		if goid() != callG {
+			return
+		}
+		if savedEv != nil {
+			savedEv(kind, path, data, n)
+		}
+		probe(kind + " " + filepath.Base(path))
+	}
+	kv.VerifFsEvent = func(kind string, a string, b string) {
+		if savedFs != nil {
+			savedFs(kind, a, b)
+		}
+		probe(kind + " " + filepath.Base(a))
+	}
+	kv.VerifSched = func(label string) {
+		if label == "merge.scan" {
+			probe(label)
+		}
+	}
+	err := run()
+	for _, ch := range pending {
+		select {
+		case p := <-ch:
+			checkProbe(p)
+		case <-time.After(20 * time.Second):
+			r.fail("C09", "a Get issued during %s had not returned 20 s after the call returned", what)
+		}
+	}
+	// (the hooks are package variables read by the probing goroutines: reset once those have finished)
+	fio.VerifEvent, kv.VerifFsEvent, kv.VerifSched = savedEv, savedFs, nil
+	return err, probes, answeredDuring
+}
